@@ -544,7 +544,7 @@ def main():
     # files with the measurement, run only when named with --only): never part of quick or thorough
     hs = [h for h in allh if pid in h["ids"] and (h["tier"] != "unshipped" or args.only)]
     if args.tier == "quick":
-        hs = [h for h in hs if h["tier"] == "quick"]
+        hs = [h for h in hs if h["tier"] == "quick" or (h["tier"] == "unshipped" and args.only)]
     if args.only:
         hs = [h for h in hs if any(o in h["name"] for o in args.only.split(","))]
     if not hs:
